@@ -79,3 +79,39 @@ def dependants_are_removed__excl(position: int, bad: int, order: int) -> bool:
     if position in UNION_POSITIONS:
         return True  # known finding C08-F1: references inside unions do not record the dependency
     return _ok(position, bad, order)
+
+
+# ------------------------------------------------------------------------------------------------ survivors are self-contained
+_INLINE = (
+    {"type": "object", "properties": {"inner": {"type": "object", "properties": {"y": {"type": "string"}}}}},  # class AInner
+    {"type": "object", "properties": {"inner": {"type": "array", "items": {"type": "object", "properties": {"y": {"type": "string"}}}}}},  # class AInnerItem
+    {"type": "object", "additionalProperties": {"type": "object", "properties": {"y": {"type": "string"}}}},  # class AAdditionalProperty
+)
+_TAKEN = ("AInner", "AInnerItem", "AAdditionalProperty")
+_REFERRERS = (
+    lambda r: {"type": "object", "properties": {"i": r}},
+    lambda r: {"type": "object", "properties": {"i": {"type": "array", "items": r}}},
+    lambda r: {"allOf": [r, {"type": "object", "properties": {"own": {"type": "integer"}}}]},
+)
+
+
+def rejected_duplicate_spares_the_existing_class(shape: int, referrer: int, order: int) -> bool:
+    """
+    Model `A` has an inline model whose class name is already taken by a component (`AInner`, …): `A` is rejected as a
+    duplicate — and only `A`.  The component of that name and the model `User` that refers to it stay, and every class
+    that remains registered by reference is still registered by name (so its module is generated).
+    pre: 0 <= shape < 3 and 0 <= referrer < 3 and 0 <= order < 6
+    post: _
+    """
+    taken = _pick(_TAKEN, shape)
+    r = {"$ref": f"#/components/schemas/{taken}"}
+    comps = {"A": _pick(_INLINE, shape), taken: {"type": "object", "properties": {"x": {"type": "integer"}}}, "User": _pick(_REFERRERS, referrer)(r)}
+    names = _perm(sorted(comps), order)
+    schemas = build_schemas(components={n: oai.Schema.model_validate(comps[n]) for n in names}, schemas=Schemas(), config=CFG)
+    refs = schemas.classes_by_reference
+    if "/components/schemas/A" in refs or len(schemas.errors) != 1:
+        return False
+    if f"/components/schemas/{taken}" not in refs or "/components/schemas/User" not in refs:
+        return False
+    by_name = {str(k) for k in schemas.classes_by_name}
+    return all(str(p.class_info.name) in by_name for p in refs.values() if isinstance(p, ModelProperty))
